@@ -708,13 +708,56 @@ def shard(arg):
     return res
 
 
+def spelling_cases():
+    """every single-letter respelling of the two CSS keywords (capital, full-width forms, small
+    capital), as a declaration of its own: deterministic, so that a spelling dropped from one of
+    the regular expressions is met on every run"""
+    cases = []
+    cfg = {'safe_attrs': {'add': ['style']}}
+    smallcap = {'r': '\u0280', 'i': '\u026a', 'n': '\u0274', 'l': '\u029f'}
+    for word, wide, tail in (('expression', True, '(alert(1))'), ('url', False, '(javascript:alert(1))')):
+        for i, ch in enumerate(word):
+            vs = [ch.upper()]
+            if ch in smallcap:
+                vs.append(smallcap[ch])
+            if wide:
+                vs += [chr(ord(ch) + 0xfee0), chr(ord(ch.upper()) + 0xfee0)]
+            for v in vs:
+                text = 'background: ' + word[:i] + v + word[i + 1:] + tail
+                cases.append({'kind': 'css', 'text': text, 'cfg': cfg})
+                cases.append({'kind': 'raw', 'cfg': cfg,
+                              'events': [['S', ['', 'p'], [[['', 'style'], text]]], ['E', ['', 'p']]]})
+    return cases
+
+
+def fixed_shard(arg):
+    res = Result()
+    cases = spelling_cases()
+    reals = []
+    for c in cases:
+        res.evaluations += 1
+        res.count('kind:spelling')
+        real = run_real(c) if c['kind'] in ('html', 'raw') else None
+        reals.append(real)
+        f = oracle_case(c, res, real)
+        if f:
+            res.failures.append(f)
+        res.nontrivial.add(json.dumps(c, sort_keys=True))
+    compare(cases, reals, res)
+    return res
+
+
 def run(ctx):
     nsh = 16
     per = ctx.n(1800, 25000)
     res = Result()
     for r in pmap('harness.props.c06', 'shard', [(ctx.seed, i, per) for i in range(nsh)]):
         res.merge(r)
-    res.rule = 'distinct cases'
+    for r in pmap('harness.props.c06', 'fixed_shard', [0]):
+        res.merge(r)
+    res.rule = ('tag soup, raw event streams (a third ill nested), style texts, URIs and reference texts from an XSS '
+                'payload vocabulary, default / style-allowing / custom configurations; non-trivial = the filter changed '
+                'the stream (or the text holds an escape, reference or scheme); distinct by canonical JSON')
     return res
 
 
